@@ -85,6 +85,11 @@ class GotranCCodePrinter(C99CodePrinter):
             factors = converted
         return super()._print_Mul(sympy.Mul(*factors, evaluate=False))
 
+    def _print_re(self, expr):
+        # sympy introduces re() when it cannot prove an argument real (Abs(exp(acos(x))));
+        # every quantity in the generated code is a real double
+        return self._print(expr.args[0])
+
     def _print_Mod(self, expr):
         # fmod takes the sign of the dividend; Mod (as in sympy and Python) that of the divisor
         a, b = (self._print(arg) for arg in expr.args)
